@@ -1,7 +1,7 @@
 from vlib.core import Ob
 ID = "C09"
 LEVEL = "model_checking"
-FUNCTIONS = ["cmp", "eq", "neq", "lt", "gt", "le", "ge", "Int_Cmp", "instance", "Type_Instance", "Type_Scan", "Type_Of", "c_int"]
+FUNCTIONS = ["Array_Cmp", "List_Cmp", "Array_Hash", "List_Hash", "cmp", "eq", "neq", "lt", "gt", "le", "ge", "Int_Cmp", "instance", "Type_Instance", "Type_Scan", "Type_Of", "c_int"]
 ASSUMPTIONS = []
 EXPLANATION = "bounded symbolic execution of the real comparison code"
 BOUNDS = {}
@@ -13,5 +13,11 @@ OBLIGATIONS = [
     Ob("string_cmp.len8", "C09/string_cmp.c", defs=["SLEN=8"], desc="String cmp vs unsigned lexicographic order, 3 free strings <= 8 bytes", checks=["bounds", "pointer"], tiers=("thorough",)),
     Ob("struct_type_cmp", "C09/struct_cmp.c", desc="default memcmp branch on a 16-byte plain struct; Type name order on built-in types", checks=["bounds", "pointer"]),
 ]
+def CC(nl, ml, other, tiers):
+    us = ["Type_Scan.0:40", "Type_Scan.1:40", "strcmp.0:26", "memset.0:8", "memset.1:44", "memcpy.0:8", "memcpy.1:44", "Array_Cmp.0:6", "List_Cmp.0:6", "Array_Hash.0:6", "List_Hash.0:6", "elem_live_count.0:26"]
+    return Ob("container_cmp.%s.n%dm%d" % ("list" if other else "array", nl, ml), "C09/container_cmp.c", defs=["NLEN=%d" % nl, "MLEN=%d" % ml] + (["OTHER_LIST"] if other else []),
+              replace=["Array.c", "List.c"], unwind=8, unwindset=us, checks=["bounds", "pointer"], tiers=tiers,
+              desc="Array_Cmp/Hash vs %s of lengths %d and %d, symbolic elements" % ("List" if other else "Array", nl, ml))
+OBLIGATIONS += [CC(nl, ml, other, ("quick", "thorough") if (nl + ml) % 2 == (1 if other else 0) or nl == ml else ("thorough",)) for nl in range(4) for ml in range(4) for other in (0, 1)]
 LEVEL_TEXT = "Bounded model checking of the real cmp/eq/... code paths: every claim is 'for all values within the stated bounds' (full 64-bit width for Int/Float, strings up to the stated length), decided by SAT; not a proof beyond the bounds."
 LEVEL_NOTE = "Trusted: cbmc's C semantics and IEEE-754 model, the harness reference orders, libc strcmp/memcmp modelled from ISO C. exception_throw replaced by a path-ending recorder."
